@@ -1,5 +1,6 @@
 package main
 
+// witnesses: main.sizes#post.end, main.sizes#post.lastsize, main.sizes#post.chain, main.sizes#inv.keep.loop3
 // Replay driver for cmd/structlayout.sizes (C19): the reported entries must tile [0, size of the
 // struct) without gaps or overlaps, and plain fields must sit at the compiler's offsets. The
 // corpus exercises nesting, trailing padding of nested structs and trailing zero-size fields.
